@@ -2,7 +2,7 @@
 From Coq Require Import Ascii String List Bool Arith ZArith NArith.
 From PTBase Require Import Exn PyStr PyNum PyVal Fmt FixedFormat.
 From Gen Require Import GenTables GenSections.
-From P Require Import Comb Obj Fields Idem Sections SectionsB Rec SecRocks SecMesh SecGener SecMisc SecParam SecHist SecSel SecShort SecMeshm T2DataIO Whole Xp Example.
+From P Require Import Comb Obj Fields Idem Sections SectionsB Rec SecRocks SecMesh SecGener SecMisc SecParam SecHist SecSel SecShort SecMeshm T2DataIO Whole Xp Example Prog IdemSec IdemSecB IdemWhole IdemEx Bin BinEx.
 Import ListNotations.
 Open Scope string_scope.
 
@@ -193,7 +193,7 @@ Theorem t2data_read_write_hypotheses_met :
 Proof. exact (conj example_autough2_ok example_tough2_ok). Qed.
 Print Assumptions t2data_read_write_hypotheses_met.
 
-(** ** writing again what was read (record level; the whole-file statement is tested, not proved) *)
+(** ** writing again what was read: a record *)
 Theorem exact_fields_are_stable :
   (forall f z, ft f = Td -> (0 <= fw f)%Z -> fits_int f z = true -> stable f (XInt z)) /\
   (forall f s, ft f = Ts -> fits_str f s = true -> stable f (XStr s)) /\
@@ -253,3 +253,72 @@ Theorem t2data_read_write_extra_precision_hypotheses_met :
   hyps_xp_ok example_autough2 all_xp true (no_simul example_autough2_order) = true.
 Proof. exact (conj example_xp_ok example_xp_echo_ok). Qed.
 Print Assumptions t2data_read_write_extra_precision_hypotheses_met.
+
+(** ** the grid in the binary pair MESHA / MESHB: the records, then the whole configuration through any
+    packing of a record into bytes that unpacks ([unpack_pack]: what struct.pack / struct.unpack and the
+    record markers do -- a hypothesis, not modelled) *)
+Theorem binary_mesh_records_read_write : forall d RA RB d2,
+  write_bin d = Ok (RA, RB) -> wf_bin d d2 = true -> read_bin RA RB d2 = Ok (bin_state d d2).
+Proof. exact bin_roundtrip. Qed.
+Print Assumptions binary_mesh_records_read_write.
+Theorem t2data_read_write_binary_mesh : forall (rbytes : Type) (pack : brec -> rbytes) (unpack : bfmt -> rbytes -> res brec),
+  (forall r, brec_ok r = true -> unpack (fmt_of r) (pack r) = Ok r) ->
+  forall d ks d' fs RA RB,
+  write_files (mk_wcfg 2 None None) d = Ok (d', fs) -> write_bin d = Ok (RA, RB) ->
+  update_sections d = sections d -> main_secs d = map s2l ks -> xprec d = [] -> is_end (end_keyword d) = true ->
+  title_ok d = true -> chain_ok d ks (start_state d) = true -> forallb (fun k => negb (k =? "ELEME")) ks = true ->
+  let d2 := set_end_keyword (final d ks (start_state d)) (end_keyword d) in
+  wf_bin d d2 = true -> forallb brec_ok RA = true -> forallb brec_ok RB = true ->
+  read_files_bin_bytes rbytes unpack fs (map pack RA) (map pack RB) = Ok (bin_state d d2).
+Proof. exact read_write_binary_bytes. Qed.
+Print Assumptions t2data_read_write_binary_mesh.
+Theorem t2data_read_write_binary_mesh_hypotheses_met :
+  hyps_bin_ok (with_centres (drop_short example_autough2)) (no_mesh example_autough2_order) = true /\
+  hyps_bin_ok (with_centres (drop_short example_tough2)) (no_mesh example_tough2_order) = true.
+Proof. exact (conj example_autough2_bin_ok example_tough2_bin_ok). Qed.
+Print Assumptions t2data_read_write_binary_mesh_hypotheses_met.
+
+(** ** writing again what was read: the whole file (mesh in the file, no extra precision).
+    [reread d ks] is the object t2data.read builds from the file of [d] (by t2data_read_write).  Its file is
+    the first file with blanks before some newlines ([lpad]), and is reproduced byte for byte from then on.
+    Every section kind but MESHMAKER ([idem_covered]); that each written real survives the trip
+    ([istable]: its text, read and written again, is the same text) is a decidable hypothesis, as are the
+    conditions [idem_ok] on the values (no field holding the number 0 where the reader takes 0 for absent, ...) *)
+Theorem second_file_sections_covered : forall k, In k covered -> k <> "MESHM" -> In k idem_covered.
+Proof. exact idem_covered_all. Qed.
+Print Assumptions second_file_sections_covered.
+Theorem line_program_write_idem : forall p ls, render T0 p = Ok ls -> Forall (istable T0) p ->
+  (exists ls', render T0 (map (citem T0) p) = Ok ls' /\ Forall2 lpad ls ls') /\
+  render T0 (map (citem T0) (map (citem T0) p)) = render T0 (map (citem T0) p).
+Proof. exact (fun p ls W S => conj (render_rewrite T0 p ls W S) (render_fixpoint T0 p ls W S)). Qed.
+Print Assumptions line_program_write_idem.
+Theorem t2data_write_idem_partial : forall d ks ls,
+  write_lines d = Ok ls -> update_sections d = sections d -> sections d = map s2l ks -> xprec d = [] ->
+  chain_ok d ks (start_state d) = true -> idem_ok d ks = true ->
+  update_sections (reread d ks) = sections (reread d ks) ->
+  Forall (istable T0) (prog_file d ks) ->
+  exists ls', write_lines (reread d ks) = Ok ls' /\ Forall2 lpad ls ls' /\ render T0 (map (citem T0) (prog_file d ks)) = Ok ls'.
+Proof. exact write_idem. Qed.
+Print Assumptions t2data_write_idem_partial.
+Theorem t2data_write_fixpoint_partial : forall d ks ls,
+  write_lines d = Ok ls -> update_sections d = sections d -> sections d = map s2l ks -> xprec d = [] ->
+  chain_ok d ks (start_state d) = true -> idem_ok d ks = true ->
+  update_sections (reread d ks) = sections (reread d ks) ->
+  Forall (istable T0) (prog_file d ks) ->
+  let D := reread d ks in
+  is_end (end_keyword d) = true -> title_ok D = true -> chain_ok D ks (start_state D) = true -> idem_ok D ks = true ->
+  update_sections (reread D ks) = sections (reread D ks) ->
+  exists ls', write_lines D = Ok ls' /\ Forall2 lpad ls ls' /\ read_lines ls' = Ok (reread D ks) /\ write_lines (reread D ks) = Ok ls'.
+Proof. exact write_fixpoint. Qed.
+Print Assumptions t2data_write_fixpoint_partial.
+(** all of these hypotheses as one boolean (the stability of the reals computed), and two objects that meet it *)
+Theorem t2data_write_idem_checked_partial : forall d ks, idem_hyps d ks = true ->
+  exists ls ls', write_lines d = Ok ls /\ write_lines (reread d ks) = Ok ls' /\ Forall2 lpad ls ls' /\
+    read_lines ls' = Ok (reread (reread d ks) ks) /\ write_lines (reread (reread d ks) ks) = Ok ls'.
+Proof. exact write_fixpoint_checked. Qed.
+Print Assumptions t2data_write_idem_checked_partial.
+Theorem t2data_write_idem_hypotheses_met :
+  idem_hyps (drop_meshm example_tough2) (no_meshm example_tough2_order) = true /\
+  idem_hyps (drop_meshm example_autough2) (no_meshm example_autough2_order) = true.
+Proof. exact (conj example_tough2_idem example_autough2_idem). Qed.
+Print Assumptions t2data_write_idem_hypotheses_met.
